@@ -1001,6 +1001,10 @@ class YAMLPath:
         path_str = str(path)
         if path_str.startswith(prefix_str):
             path_str = path_str[len(prefix_str):]
+            if path_str.startswith("["):
+                # Without a leading separator, the remainder would be taken
+                # for dot notation
+                path_str = "/" + path_str
             return YAMLPath(path_str)
 
         return path
